@@ -35,6 +35,8 @@ def _check(repo, file, qual, handle, offset, arr, count, sink):
     why = []
     reads = [c for c in ast.walk(node) if isinstance(c, ast.Call) and isinstance(c.func, ast.Subscript) and ast.unparse(c.func.value) == arr]
     if len(reads) != 1:
+        if not reads and not any(isinstance(c, ast.Call) and isinstance(c.func, ast.Subscript) for c in ast.walk(node)):
+            raise Unsupported(f"{qual}: no cstruct array read found (the table is loaded in a way this shape contract cannot read)")
         return [f"expected exactly one array read {arr}[n](handle), found {len(reads)}"]
     rd = reads[0]
     if [ast.unparse(a) for a in rd.args] != [handle] or rd.keywords:
